@@ -13,7 +13,7 @@ struct Lex {
     scopes: Vec<HashMap<String, String>>,
     probes: Vec<String>,
     /// reuse templates (content of the groups written inside <specs>), by id
-    templates: HashMap<String, Vec<X>>,
+    templates: HashMap<String, (Vec<(String, String)>, Vec<X>)>,
 }
 
 impl Lex {
@@ -69,7 +69,7 @@ impl Lex {
                         // never rendered; its groups are templates
                         for k in kids.iter().flatten() {
                             if let X::El { attrs, kids: Some(ks), .. } = k {
-                                if let Some((_, id)) = attrs.iter().find(|(a, _)| a == "id") { self.templates.insert(id.clone(), ks.clone()); }
+                                if let Some((_, id)) = attrs.iter().find(|(a, _)| a == "id") { self.templates.insert(id.clone(), (attrs.clone(), ks.clone())); }
                             }
                         }
                     }
@@ -78,10 +78,16 @@ impl Lex {
                         let mut m = HashMap::new();
                         let mut tpl = None;
                         for (k, v) in attrs { if k == "href" { tpl = self.templates.get(v.trim_start_matches('#')).cloned(); } else { m.insert(k.clone(), self.subst(v)); } }
+                        // the copy is a group: a scope of its own, holding the template group's attributes -
+                        // those the reuse element also carries take the reuse element's value, which was
+                        // evaluated where the reuse element stands (outside its own bindings)
+                        let mut gs = HashMap::new();
+                        if let Some((ta, _)) = &tpl {
+                            for (k, v) in ta { if k != "id" { gs.insert(k.clone(), m.get(k).cloned().unwrap_or_else(|| v.clone())); } }
+                        }
                         self.scopes.push(m);
-                        // the copy is a group: a scope of its own (without attributes)
-                        self.scopes.push(HashMap::new());
-                        if let Some(ks) = tpl { self.run(&ks); }
+                        self.scopes.push(gs);
+                        if let Some((_, ks)) = tpl { self.run(&ks); }
                         self.scopes.pop();
                         self.scopes.pop();
                     }
@@ -151,6 +157,12 @@ impl<'a> Gen<'a> {
                     has_forward |= fwd;
                     let mut attrs = vec![("href".to_string(), if fwd { "#tplF" } else { "#tplA" }.to_string())];
                     if self.rng.chance(3, 4) { attrs.push((k.to_string(), v)); }
+                    // an attribute the template group has as well, written in terms of a variable that this very
+                    // reuse element binds: it is evaluated where the reuse element stands, not inside its bindings
+                    if !fwd && self.rng.chance(1, 2) {
+                        let q = match self.rng.below(3) { 0 => format!("${k}"), 1 => format!("<${{{k}}}>"), _ => self.value() };
+                        if self.rng.chance(1, 2) { attrs.push(("q".to_string(), q)); } else { attrs.insert(1, ("q".to_string(), q)); }
+                    }
                     out.push(X::El { name: "reuse".into(), attrs, kids: None });
                 }
                 0 | 1 => out.push(self.probe(false)),
@@ -228,7 +240,7 @@ fn gen_doc(rng: &mut Rng, forward: bool, plain_only: bool) -> Vec<X> {
     let mut top: Vec<X> = if plain_only { vec![] } else { vec![X::leaf("var", &[("a", "A0"), ("b", "B0"), ("c", "C0")])] };
     // (not in the empty-scope mode: there the document must begin without any scope having existed)
     if !plain_only { top.push(X::node("specs", &[], vec![
-        X::node("g", &[("id", "tplA")], vec![X::leaf("rect", &[("wh", "1"), ("data-p", "$a|$b|${c}")])]),
+        X::node("g", &[("id", "tplA"), ("q", "q0")], vec![X::leaf("rect", &[("wh", "1"), ("data-p", "$a|$b|${c}|$q")])]),
         X::node("g", &[("id", "tplF")], vec![X::leaf("rect", &[("wh", "1"), ("data-p", "<$a>")]), X::leaf("rect", &[("wh", "1"), ("xy", "#z|h 1"), ("data-p", "$b-$c")])]),
     ])); }
     let units = 3 + g.rng.below(5);
